@@ -9,6 +9,7 @@ static void op_ecdh(void) {
     secp256k1_ecdh_hash_function fp = NULL;
     if (g_bad) return;
     if (mode == 1) fp = secp256k1_ecdh_hash_function_sha256; else if (mode == 2) fp = ecdh_hash_fail; else if (mode == 3) fp = ecdh_hash_xy;
+    if (g_alias && mode != 3) out = sk;      /* in place: the shared secret overwrites the secret key buffer */
     CALL(r = secp256k1_ecdh(ctx, out, (secp256k1_pubkey *)pk, sk, fp, NULL)); R_int(r); R_hex(out, mode == 3 ? 64 : 32);
 }
 
@@ -24,6 +25,7 @@ static void op_ellswift_xdh(void) {
     unsigned char *pre = A_fix(5, 64, 1), *out = O_buf(32); int r; secp256k1_ellswift_xdh_hash_function fp = secp256k1_ellswift_xdh_hash_function_bip324;
     if (g_bad) return;
     if (mode == 1) fp = secp256k1_ellswift_xdh_hash_function_prefix; else if (mode == 2) fp = xdh_hash_fail; else if (mode == 3) fp = xdh_hash_raw;
+    if (g_alias) out = sk;
     CALL(r = secp256k1_ellswift_xdh(ctx, out, a, b, sk, party, fp, pre)); R_int(r); R_hex(out, 32);
 }
 
